@@ -107,7 +107,10 @@ def isStructural (c : Char) : Bool :=
 def numChars : List Char :=
   "0#?.,%Ee+-/@123456789$(): !^&'~{}<>=".toList
 
-def isNumChar (c : Char) : Bool := numChars.contains c
+/-- … and every character outside ASCII: letters of other scripts, ligatures, currency signs written without
+    quotes are literal text (the format tokens are ASCII); in particular `ß ſ ﬆ ẖ ẙ`, whose Unicode UPPER-casing
+    begins with S / H / Y, are not date tokens -/
+def isNumChar (c : Char) : Bool := numChars.contains c || 128 ≤ c.toNat
 
 /-- spellings of the keyword -/
 def isGeneralWord : List Char → Bool
